@@ -258,15 +258,18 @@ func main() {
 			}
 		}
 	}
-	// order: the 2^62 bombs (can only panic), then the 2^31 bombs (2 GiB if
-	// the limit is ignored), and only if the decoder honoured its limit on
-	// all of them the byte-level mutations
+	// order: bombs at byte-slice/string positions first — 2^62 (can only
+	// panic), then 2^31 (one 2 GiB allocation if the limit is ignored, stops
+	// after three) — and only if the decoder honoured its limit on all of
+	// them the bombs at element-slice positions and the byte-level mutations
+	// (after those the decoder continues on shifted, i.e. arbitrary, bytes).
 	var m62, m31, mOther []memCase
 	for _, mc := range mem {
+		atBytes := strings.HasSuffix(mc.mut, "(bytes)") || strings.HasSuffix(mc.mut, "(string)")
 		switch {
-		case strings.HasPrefix(mc.mut, "bomb-2p62"):
+		case atBytes && strings.HasPrefix(mc.mut, "bomb-2p62"):
 			m62 = append(m62, mc)
-		case strings.HasPrefix(mc.mut, "bomb-2p31"):
+		case atBytes && strings.HasPrefix(mc.mut, "bomb-2p31"):
 			m31 = append(m31, mc)
 		default:
 			mOther = append(mOther, mc)
